@@ -107,6 +107,28 @@ pub fn codec_case(case: &Value, dispatch: Dispatch, r: &mut Report) {
         r.count("traced_values");
     }
 
+    // --- implementation trace of the record / enum mechanism (Trace_Adt.tla): one writer run, one reader run
+    if let Some(path) = case.get("atrace").and_then(|p| p.as_str()) {
+        let tcase = json!({"trace": path});
+        if let Some(mut t) = crate::trace::TraceFile::open(&tcase) {
+            t.line(json!({"ev": "case", "w": case["decl"], "r": case["decl"], "vi": case["v"][1]}));
+            t.start();
+            let enc = crate::ops::stream_encode(&[(ops, v)]);
+            let evs = t.stop();
+            crate::trace::adt_events(&mut t, &evs);
+            t.line(json!({"ev": "wend", "ok": enc.is_ok() as i32}));
+            if let Outcome::Ok(real) = &enc {
+                t.start();
+                let dec = ops.decode_top(real);
+                let evs = t.stop();
+                crate::trace::adt_events(&mut t, &evs);
+                t.line(json!({"ev": "rend", "ok": dec.is_ok() as i32}));
+            }
+            t.flush();
+            r.count("adt_traced");
+        }
+    }
+
     // --- encode on every sink
     r.count("enc");
     let encs = ops.encode(v);
